@@ -509,6 +509,20 @@ func init() {
 		lw := e.lwv(mn)
 		work := e.work(lw)
 		chk := n > 0 && !e.query()
+		// Documented: "it will be only checked that the block is isolated, that is,
+		// ilo == 0 or H[ilo,ilo-1] == 0, ihi == n-1 or H[ihi+1,ihi] == 0, and Dhseqr
+		// will panic otherwise."
+		if e.at("notIsolated", chk && (ilo > 0 || ihi < n-1)) {
+			lower := ilo > 0
+			if ilo > 0 && ihi < n-1 {
+				lower = e.c.Bad == 0
+			}
+			if lower {
+				h.s[ilo*ldh+ilo-1] = 0.75
+			} else {
+				h.s[(ihi+1)*ldh+ihi] = 0.75
+			}
+		}
 		e.run(func() {
 			impl.Dhseqr(fjob, fcompz, e.fdim("n", n), e.fint("ilo", ilo, []int{-1, max(0, n-1) + 1}[e.c.Bad], true), e.fint("ihi", ihi, badHi(e, n, ilo), true), fs(e, "shortH", h, chk), e.fld("ldh", ldh, max(1, n)), fs(e, "shortWr", wr, chk), fs(e, "shortWi", wi, chk), fs(e, "shortZ", z, chk && wantz), e.fld("ldz", ldz, ldzMin), e.fwork(work), e.flw(lw, mn))
 		})
